@@ -1,6 +1,9 @@
 import CasbinModel.Lemmas.Mono
 import CasbinModel.Props.C01
 import CasbinModel.Props.C05
+import CasbinModel.PatRoles
+import CasbinModel.KeyMatch
+import CasbinModel.Lemmas.PatRoles
 /-!
 # C08 — Granting never revokes and revoking never grants
 
@@ -188,5 +191,136 @@ example :
       (fun rule => some (rule[0]? = some "" && rule[1]? = some "")) = .ok true ∧
     enforceCore { C01.demoCfg with policy := [["alice", "d1", "allow"]], effExpr := some .allowOverride } 2
       (fun rule => some (rule[0]? = some "" && rule[1]? = some "")) = .ok false := by decide
+
+/-! ### The recorded finding K2, in the model of the manager as written (`PatRoles.lean`)
+
+With a role-matching function installed the property is **false** of the code, and of its model: a name that is
+not a node is answered from the first pattern node matching it, and the first link that mentions the name makes
+it a node of its own.  The witness below is the history the check replays on the crate on every run (first case
+of the `prm` stream and of the pattern-role stream); `k2_witness` is the negation of "granting never revokes"
+for `has_link`, proved by kernel evaluation of the model. -/
+
+/-- `key_match` as the role-matching function -/
+def kmFn : RoleFn Str := some keyMatch
+def dflt : Str := "DEFAULT".toList
+
+/-- `g b*,alice; g *,guest; remove g *,guest; g reader,guest; g b*,*` on a fresh manager -/
+def k2State : PRm Str :=
+  (((((PRm.new 10).addLink kmFn "b*".toList "alice".toList dflt).addLink kmFn "*".toList "guest".toList dflt).deleteLink
+      kmFn none "*".toList "guest".toList dflt).getD (PRm.new 10)
+    |>.addLink kmFn "reader".toList "guest".toList dflt).addLink kmFn "b*".toList "*".toList dflt
+
+/-- **adding a link revokes**: `bob` reaches `guest` through the patterns, and no longer does once
+`g guest,bob` has made `bob` a node -/
+theorem k2_witness :
+    k2State.hasLink kmFn none "bob".toList "guest".toList dflt = true ∧
+    (k2State.addLink kmFn "guest".toList "bob".toList dflt).hasLink kmFn none "bob".toList "guest".toList dflt = false := by
+  decide +kernel
+
+/-- so `has_link` of the manager with a role-matching function is not monotone in the links added -/
+theorem pattern_roles_not_monotone :
+    ¬ ∀ (rm : PRm Str) (x y a b d : Str), rm.hasLink kmFn none x y d = true →
+        (rm.addLink kmFn a b d).hasLink kmFn none x y d = true := by
+  intro h
+  have h1 := h k2State "bob".toList "guest".toList "guest".toList "bob".toList dflt k2_witness.1
+  rw [k2_witness.2] at h1
+  cases h1
+
+/-! ### Pattern domains (a domain-matching function on the role manager) -/
+
+theorem addLink_maxLevel (rm : RoleMgr String) (x y d : String) : (rm.addLink x y d).maxLevel = rm.maxLevel := by
+  unfold RoleMgr.addLink; split <;> rfl
+
+/-- **pattern domains: granting never revokes.**  With a domain-matching function installed on the role
+manager (no role-matching function), adding a link — in a concrete or in a pattern domain — never takes a
+role away from a name, for whatever request domain and matching function, as long as the hierarchies stay
+below the depth limit. -/
+theorem pattern_domains_addLink_mono (rm : RoleMgr String) (hw : rm.WF) (df : RoleFn String)
+    (x y d' a b d : String)
+    (hsh : ∀ k, C05.Shallow ((rm.addLink x y d').graph k) rm.maxLevel)
+    (h : rm.toP.hasLink none df a b d = true) :
+    (rm.toP.addLink none x y d').hasLink none df a b d = true := by
+  rw [addLink_toP]
+  by_cases hab : a = b
+  · simp [PRm.hasLink, hab]
+  · rw [hasLink_toP_df _ _ _ _ _ hab] at h ⊢
+    rw [List.any_eq_true] at h ⊢
+    obtain ⟨k, hk, hl⟩ := h
+    refine ⟨k, matchedDomains_addLink rm df x y d' d k hk, ?_⟩
+    apply hasLink_mono rm (rm.addLink x y d') (addLink_WF hw x y d') (addLink_maxLevel rm x y d').symm k
+      ?_ (by rw [addLink_maxLevel]; exact hsh k) a b hl
+    intro u v huv
+    rw [addLink_graph]
+    by_cases hxy : x = y
+    · simpa [hxy] using huv
+    · simp only [hxy, if_false]
+      by_cases hd : d' = k
+      · subst hd
+        simp only [if_true, addedGraph]
+        have hmem : (u, v) ∈ (((rm.graph d').getOrCreate x).getOrCreate y).edges := by
+          simpa [Graph.getOrCreate] using (by
+            unfold Graph.getOrCreate; split <;> split <;> simpa using huv :
+              (u, v) ∈ (((rm.graph d').getOrCreate x).getOrCreate y).edges)
+        split
+        · exact hmem
+        · exact List.mem_cons_of_mem _ hmem
+      · simpa [hd] using huv
+
+
+/-- a graph with at most one link `u → v`, `u ≠ v`, is shallow for every limit above one -/
+theorem shallow_single (g : Graph String) (u v : String) (huv : u ≠ v) (n : Nat) (hn : 2 ≤ n)
+    (he : ∀ x y, (x, y) ∈ g.edges → x = u ∧ y = v) : C05.Shallow g n := by
+  intro a b ⟨k, hp⟩
+  cases hp with
+  | nil => exact ⟨0, by omega, Path.nil _⟩
+  | cons h1 hp' =>
+    cases hp' with
+    | nil => exact ⟨1, by omega, Path.cons h1 (Path.nil _)⟩
+    | cons h2 _ =>
+      exfalso
+      obtain ⟨_, hy⟩ := he _ _ h1
+      obtain ⟨hx, _⟩ := he _ _ h2
+      exact huv (hx.symm.trans hy)
+
+def pdDemo : RoleMgr String := (RoleMgr.new 10).addLink "alice" "admin" "domain1"
+
+
+/-- non-vacuity of `pattern_domains_addLink_mono`: one link in a concrete domain, a second one added in the
+pattern domain `*`, a domain function that lets `*` match every request domain -/
+example :
+    (pdDemo.toP.addLink none "bob" "admin" "*").hasLink none (some fun d k => k == "*" || k == d) "alice" "admin" "domain1" = true ∧
+    (pdDemo.toP.addLink none "bob" "admin" "*").hasLink none (some fun d k => k == "*" || k == d) "bob" "admin" "domain1" = true ∧
+    pdDemo.toP.hasLink none (some fun d k => k == "*" || k == d) "bob" "admin" "domain1" = false := by
+  refine ⟨?_, by decide +kernel, by decide +kernel⟩
+  apply pattern_domains_addLink_mono pdDemo (addLink_WF (WF_new 10) _ _ _) _ "bob" "admin" "*" "alice" "admin" "domain1"
+  · intro k
+    have hm : pdDemo.maxLevel = 10 := by decide +kernel
+    rw [hm]
+    by_cases h1 : k = "*"
+    · subst h1
+      apply shallow_single _ "bob" "admin" (by decide) 10 (by omega)
+      intro x y h
+      have : ((pdDemo.addLink "bob" "admin" "*").graph "*").edges = [("bob", "admin")] := by decide +kernel
+      rw [this] at h; simpa using h
+    · by_cases h2 : k = "domain1"
+      · subst h2
+        apply shallow_single _ "alice" "admin" (by decide) 10 (by omega)
+        intro x y h
+        have : ((pdDemo.addLink "bob" "admin" "*").graph "domain1").edges = [("alice", "admin")] := by decide +kernel
+        rw [this] at h; simpa using h
+      · apply shallow_single _ "alice" "admin" (by decide) 10 (by omega)
+        intro x y h
+        exfalso
+        have h1' : ¬ "*" = k := fun hh => h1 hh.symm
+        have h2' : ¬ "domain1" = k := fun hh => h2 hh.symm
+        rw [addLink_graph] at h
+        simp only [show ¬ ("bob" = "admin") by decide, if_false, h1'] at h
+        unfold pdDemo at h
+        rw [addLink_graph] at h
+        simp only [show ¬ ("alice" = "admin") by decide, if_false, h2'] at h
+        have : ((RoleMgr.new 10 : RoleMgr String).graph k).edges = [] := by
+          simp [RoleMgr.new, RoleMgr.graph, RoleMgr.graph?, Graph.empty]
+        rw [this] at h; cases h
+  · decide +kernel
 
 end Casbin.C08
